@@ -559,6 +559,59 @@ def _():
     if merge_class == MultiMarker:
         merge_method = marker1.constraint.intersect""")
 
+@fix("D48", "fix: distribute a python_version 'in' list over the other clauses of its conjunction")
+def _():
+    # recorded as the patch itself (git apply): normalize_python_version_markers keeps one list of alternatives per clause and emits
+    # the product, instead of joining the alternatives of an 'in' clause with '||' inside the space-separated conjunction
+    import tempfile
+    with tempfile.NamedTemporaryFile("w", suffix=".diff", delete=False) as f:
+        f.write(D48_DIFF)
+    subprocess.check_call(["git", "-C", str(R), "apply", f.name])
+D48_DIFF = r"""diff --git a/src/poetry/core/packages/utils/utils.py b/src/poetry/core/packages/utils/utils.py
+index 1440d57..083931b 100644
+--- a/src/poetry/core/packages/utils/utils.py
++++ b/src/poetry/core/packages/utils/utils.py
+@@ -1,6 +1,7 @@
+ from __future__ import annotations
+ 
+ import functools
++import itertools
+ import re
+ import sys
+ 
+@@ -332,7 +333,9 @@ def normalize_python_version_markers(  # NOSONAR
+ ) -> str:
+     ors = []
+     for or_ in disjunction:
+-        ands = []
++        # one list of alternatives per clause: "in" contributes several,
++        # which have to be distributed over the other clauses of the conjunction
++        ands: list[list[str]] = []
+         for op, version in or_:
+             # Expand python version
+             if op == "==" and "*" not in version and version.count(".") < 2:
+@@ -386,13 +389,15 @@ def normalize_python_version_markers(  # NOSONAR
+                     versions.append(op_ + ".".join(split))
+ 
+                 if versions:
+-                    glue = " || " if op == "in" else ", "
+-                    ands.append(glue.join(versions))
++                    if op == "in":
++                        ands.append(versions)
++                    else:
++                        ands.append([", ".join(versions)])
+ 
+                 continue
+ 
+-            ands.append(f"{op}{version}")
++            ands.append([f"{op}{version}"])
+ 
+-        ors.append(" ".join(ands))
++        ors.extend(" ".join(combo) for combo in itertools.product(*ands))
+ 
+     return " || ".join(ors)
+"""
+
 def main():
     id_ = sys.argv[1]
     msg, f = FIXES[id_]
